@@ -804,28 +804,68 @@ pub fn node_leg(items: &[&CodeItem], label: &str) -> Result<Vec<(u64, String, se
         std::fs::write(&file, full).map_err(|e| e.to_string())?;
         lists[i % nproc].push(json!({"hash": format!("{:016x}", it.hash), "file": file, "expected_keys": it.expected_keys, "string_formats": it.string_formats, "number_formats": it.number_formats}));
     }
-    let mut children = vec![];
-    for (k, l) in lists.iter().enumerate() {
-        let lf = format!("{}/list_{}.json", dir, k);
-        std::fs::write(&lf, serde_json::to_string(l).unwrap()).map_err(|e| e.to_string())?;
-        let child = Command::new("node").arg(format!("{}/js/jsim.mjs", home())).arg("c04node").arg(&lf).env("VERIF_HOME", home()).env("JSRT", &jsrt).stdin(Stdio::null()).stdout(Stdio::piped()).stderr(Stdio::piped()).spawn().map_err(|e| format!("cannot start node: {}", e))?;
-        children.push(child);
-    }
+    // one Node process per list; a process that reports a stalled module (its own watchdog
+    // thread: 20 s of CPU without progress) is restarted on the rest of its list
+    let jsrt2 = jsrt.clone();
+    let dir2 = dir.clone();
+    let handles: Vec<std::thread::JoinHandle<Result<Vec<(u64, String, serde_json::Value)>, String>>> = lists
+        .into_iter()
+        .enumerate()
+        .map(|(k, list)| {
+            let (jsrt, dir) = (jsrt2.clone(), dir2.clone());
+            std::thread::spawn(move || {
+                let mut out = vec![];
+                let mut rest: Vec<serde_json::Value> = list;
+                let mut restarts = 0;
+                while !rest.is_empty() {
+                    let lf = format!("{}/list_{}_{}.json", dir, k, restarts);
+                    std::fs::write(&lf, serde_json::to_string(&rest).unwrap()).map_err(|e| e.to_string())?;
+                    let o = Command::new("node").arg(format!("{}/js/jsim.mjs", home())).arg("c04node").arg(&lf).env("VERIF_HOME", home()).env("JSRT", &jsrt).stdin(Stdio::null()).stdout(Stdio::piped()).stderr(Stdio::piped()).output().map_err(|e| format!("cannot start node: {}", e))?;
+                    let text = String::from_utf8_lossy(&o.stdout).to_string();
+                    let mut done = false;
+                    let mut stalled_at: Option<usize> = None;
+                    let mut seen = 0usize;
+                    for line in text.lines() {
+                        let Ok(r) = serde_json::from_str::<serde_json::Value>(line) else { continue };
+                        if r.get("done").is_some() {
+                            done = true;
+                            continue;
+                        }
+                        if let Some(i) = r.get("stalled_at").and_then(|x| x.as_u64()) {
+                            stalled_at = Some(i as usize);
+                            continue;
+                        }
+                        seen += 1;
+                        if r["ok"].as_bool() != Some(true) {
+                            let h = u64::from_str_radix(r["hash"].as_str().unwrap_or("0"), 16).unwrap_or(0);
+                            out.push((h, r["class"].as_str().unwrap_or("module-check-failed").to_string(), r["detail"].clone()));
+                        }
+                    }
+                    if done {
+                        break;
+                    }
+                    match stalled_at {
+                        Some(i) if i < rest.len() => {
+                            let h = u64::from_str_radix(rest[i]["hash"].as_str().unwrap_or("0"), 16).unwrap_or(0);
+                            out.push((h, "module-parser-never-returns".to_string(), json!({"limit": "20 s of CPU without progress while loading the module or calling validate / safeParse / parse"})));
+                            rest = rest.split_off(i + 1);
+                            restarts += 1;
+                            if restarts > 6 {
+                                break;
+                            }
+                        }
+                        _ => {
+                            return Err(format!("node leg died after {} modules without a result: {}", seen, String::from_utf8_lossy(&o.stderr).chars().take(400).collect::<String>()));
+                        }
+                    }
+                }
+                Ok(out)
+            })
+        })
+        .collect();
     let mut out = vec![];
-    for child in children {
-        let o = child.wait_with_output().map_err(|e| e.to_string())?;
-        let text = String::from_utf8_lossy(&o.stdout).to_string();
-        let line = text.lines().last().unwrap_or("");
-        let v: serde_json::Value = serde_json::from_str(line).map_err(|e| format!("node leg produced no result ({}): {}", e, String::from_utf8_lossy(&o.stderr).chars().take(400).collect::<String>()))?;
-        for r in v.as_array().cloned().unwrap_or_default() {
-            if let Some(n) = r.get("notes").and_then(|n| n.as_array()) {
-                NODE_NOTES.fetch_add(n.len() as u64, Ordering::SeqCst);
-            }
-            if r["ok"].as_bool() != Some(true) {
-                let h = u64::from_str_radix(r["hash"].as_str().unwrap_or("0"), 16).unwrap_or(0);
-                out.push((h, r["class"].as_str().unwrap_or("module-check-failed").to_string(), r["detail"].clone()));
-            }
-        }
+    for h in handles {
+        out.extend(h.join().map_err(|_| "node leg thread panicked".to_string())??);
     }
     let _ = std::fs::remove_dir_all(&dir);
     Ok(out)
